@@ -129,6 +129,17 @@ let handle (line : string) : string =
             | GUndef -> "ERR"
             | GFuel -> "FUEL")
        | _ -> failwith "PG: arguments")
+  | "O" ->
+      (* O <rules of the optimised table> : translation validation (coq/Opt.v) against the current grammar *)
+      (match parse_sexp rest with
+       | l ->
+           let g' = List.map rule_of l in
+           let fuel = nat_of_int 200 in
+           if ochk_grammar !grammar g' fuel then "VALID"
+           else begin
+             let bad = List.filter (fun r' -> int_of_n r'.r_name <> 2 && not (ochk_rule !grammar g' fuel r')) g' in
+             "INVALID " ^ String.concat "," (List.map (fun r' -> string_of_int (int_of_n r'.r_name)) bad)
+           end)
   | "W" -> if wf_auto !grammar then "WF" else "NOTWF"
   | "C" ->
       (* C rule lo hi fuel : code points c in [lo, hi] for which parse rule [c] 0 succeeds, as ranges *)
